@@ -326,6 +326,58 @@ pub fn gen_c19(seed: u64, thorough: bool) {
         push_s(&mut line, what);
         println!("{}", line);
     }
+    // ---- voices loaded from FILES that declare different window counts but carry the same number of window rows: voice B
+    // announces one window fewer than A (its PDFs are cut for that) and still lists all of A's window rows. The declared
+    // counts differ, so the set must be refused (seeded change C19i: the constructor replaced the declared count by the number
+    // of rows, after which the two looked alike). Control: B against itself is accepted.
+    for t in 0..(if thorough { 40 } else { 6 }) {
+        let cfg = VoiceCfg { nstream: rng.range(2, 3), stage: 0, nstate: rng.range(1, 3), max_leaves: 3 };
+        let a = VoiceSpec::random(&mut rng, &cfg, &pool);
+        let Some(k) = (0..a.streams.len()).find(|k| a.streams[*k].windows.len() >= 2) else { continue };
+        let mut b = a.clone();
+        {
+            let st = &mut b.streams[k];
+            let (nwin, vl) = (st.windows.len(), st.veclen);
+            let keep = vl * (nwin - 1);
+            for tree in st.model.pdfs.iter_mut() {
+                for pdf in tree.iter_mut() {
+                    let mut v: Vec<f32> = pdf[..keep].to_vec();
+                    v.extend_from_slice(&pdf[vl * nwin..vl * nwin + keep]);
+                    if st.is_msd { v.push(pdf[2 * vl * nwin]); }
+                    *pdf = v;
+                }
+            }
+            st.declared_nwin = Some(nwin - 1);
+        }
+        let (pa, pb) = (format!("{}/voices/c19w_{}_{}_a.htsvoice", work_dir(), std::process::id(), t), format!("{}/voices/c19w_{}_{}_b.htsvoice", work_dir(), std::process::id(), t));
+        a.write(&pa);
+        b.write(&pb);
+        let (va, vb) = (load_htsvoice_file(&pa), load_htsvoice_file(&pb));
+        let _ = std::fs::remove_file(&pa);
+        let _ = std::fs::remove_file(&pb);
+        let (Ok(va), Ok(vb)) = (va, vb) else { continue };
+        for (pair, label) in [(vec![va.clone(), vb.clone()], "windows_count_declared"), (vec![vb.clone(), vb.clone()], "none")] {
+            let mut line = String::from("vset");
+            push_u(&mut line, 2);
+            // the metadata as the FILES declare it (the loaded structs may have been "normalised")
+            for (j, v) in pair.iter().enumerate() {
+                let mut m = v.clone();
+                let declared_b = b.streams[k].declared_nwin.unwrap();
+                let is_b = label == "none" || j == 1;
+                m.stream_models[k].metadata.num_windows = if is_b { declared_b } else { a.streams[k].windows.len() };
+                push_meta(&mut line, &m);
+            }
+            let r = VoiceSet::new(pair.into_iter().map(Arc::new).collect());
+            push_s(&mut line, match r {
+                Ok(_) => "ok",
+                Err(ModelError::EmptyVoice) => "err:empty",
+                Err(ModelError::MetadataError) => "err:metadata",
+                Err(_) => "err:other",
+            });
+            push_s(&mut line, label);
+            println!("{}", line);
+        }
+    }
     // ---- weight histories followed by synthesis
     let nhist = if thorough { 3000 } else { 300 };
     let mut cached: Option<(Vec<Arc<Voice>>, usize)> = None;
